@@ -66,8 +66,8 @@ func traverse(expr *parser.Expr, transform func(*parser.Expr)) {
 		transform(expr)
 		traverse(&node.Expr, transform)
 	case *parser.Call:
-		for _, n := range node.Args {
-			traverse(&n, transform)
+		for i := range node.Args {
+			traverse(&node.Args[i], transform)
 		}
 	case *parser.BinaryExpr:
 		transform(expr)
@@ -96,8 +96,8 @@ func traverseBottomUp(parent *parser.Expr, current *parser.Expr, transform func(
 		}
 		return transform(parent, current)
 	case *parser.Call:
-		for _, n := range node.Args {
-			if stop := traverseBottomUp(current, &n, transform); stop {
+		for i := range node.Args {
+			if stop := traverseBottomUp(current, &node.Args[i], transform); stop {
 				return stop
 			}
 		}
